@@ -27,8 +27,65 @@ def openCnt (a : Nat) (ths : List Th) : Nat := (List.range a).countP (fun c => !
 
 theorem listenerRef_eq (s : Sys) : listenerRef s = if relL s.ths then 0 else 1 := rfl
 
+/-! ### closers of connections accepted during the phase -/
+
+def accOf (th : Th) : Option Nat :=
+  match th.role, th.pc with
+  | .acceptor, .done (.conn c) => some c
+  | _, _ => none
+
+/-- the connection the Accept of thread `i` has returned (`Sys.accepted?` on the thread list) -/
+def accL (ths : List Th) (i : Nat) : Option Nat := (ths[i]?).bind accOf
+
+theorem accepted?_eq (s : Sys) (i : Nat) : s.accepted? i = accL s.ths i := by
+  unfold Sys.accepted? accL
+  cases s.ths[i]? <;> rfl
+
+/-- the connection a started `acloser` is closing -/
+def tgt (ths : List Th) (th : Th) : Option Nat :=
+  match th.role with
+  | .acloser i => if th.pc = .start then none else accL ths i
+  | _ => none
+
+/-- some `acloser` has started to close `c` -/
+def tgtd (ths : List Th) (c : Nat) : Bool := ths.any (fun th => tgt ths th == some c)
+
+def isAcl : Role → Bool
+  | .acloser _ => true
+  | _ => false
+
+/-- number of `acloser`s past their first step -/
+def astarted (ths : List Th) : Nat := ths.countP (fun th => isAcl th.role && th.pc != .start)
+
+theorem any_or {α : Type} (l : List α) (p q : α → Bool) : l.any (fun x => p x || q x) = (l.any p || l.any q) := by
+  induction l with
+  | nil => rfl
+  | cons x l ih =>
+    simp only [List.any_cons, ih]
+    cases p x <;> cases q x <;> simp
+
+theorem closes_eq (s : Sys) (th : Th) (c : Nat) :
+    closes s th c = (decide (th.role = .ccloser c ∧ th.pc ≠ .start) || (tgt s.ths th == some c)) := by
+  cases th with | mk r p =>
+  cases r with
+  | acloser i =>
+    by_cases hp : p = .start <;> simp [closes, tgt, accepted?_eq, hp]
+  | ccloser c' =>
+    by_cases hc : c' = c <;> by_cases hp : p = .start <;> simp [closes, tgt, hc, hp]
+  | _ => simp [closes, tgt]
+
+theorem any_closes_eq (s : Sys) (c : Nat) : s.ths.any (fun th => closes s th c) = (started s.ths c || tgtd s.ths c) := by
+  unfold started tgtd
+  rw [← any_or]
+  congr 1
+  funext th
+  exact closes_eq s th c
+
 theorem openHeld_eq (a : Nat) (s : Sys) :
-    openHeld a s = ((List.range a ++ taken s.ths).filter (fun c => !started s.ths c)).length := rfl
+    openHeld a s = ((List.range a ++ taken s.ths).filter (fun c => !(started s.ths c || tgtd s.ths c))).length := by
+  unfold openHeld
+  simp only [any_closes_eq]
+  rfl
 
 /-! ### waking parked threads -/
 
@@ -176,6 +233,12 @@ theorem mem_taken (l : List Th) (c : Nat) : c ∈ taken l ↔ ∃ th ∈ l, th.p
   · rintro ⟨th, hm, ht⟩
     exact ⟨th, hm, by simp [takenOf, ht]⟩
 
+theorem takenOf_some (th : Th) (c : Nat) : takenOf th = some c ↔ th.pc = .done (.conn c) := by
+  cases th with | mk r p =>
+  cases p with
+  | done r => cases r <;> simp [takenOf]
+  | _ => simp [takenOf]
+
 /-! ### counting over `range a` -/
 
 theorem countP_range_congr (p q : Nat → Bool) (n : Nat) (h : ∀ c, c < n → p c = q c) :
@@ -273,5 +336,276 @@ theorem cascade_eq (s : Sys) :
       cases h1 : decide (s.wg = 0) <;> cases h2 : s.sockClosed <;> simp_all
     rw [if_neg h, hb]
     simp [map_wk_ff]
+
+/-! ### `accL`, `tgtd`, `astarted` under the changes of the thread list -/
+
+theorem accOf_some (x : Th) (c : Nat) : accOf x = some c ↔ x.role = .acceptor ∧ x.pc = .done (.conn c) := by
+  cases x with | mk r p =>
+  cases r <;> cases p <;> simp [accOf]
+  next r => cases r <;> simp
+
+theorem accOf_wk (bs bw : Bool) (th : Th) : accOf (wk bs bw th) = accOf th := by
+  cases th with | mk r p => cases r <;> cases p <;> cases bs <;> cases bw <;> simp [accOf, wk, wkPc]
+
+theorem accL_some_iff (ths : List Th) (i c : Nat) : accL ths i = some c ↔ ∃ x, ths[i]? = some x ∧ accOf x = some c := by
+  unfold accL
+  cases ths[i]? <;> simp
+
+theorem accL_map_wk (bs bw : Bool) (l : List Th) (i : Nat) : accL (l.map (wk bs bw)) i = accL l i := by
+  unfold accL
+  rw [List.getElem?_map]
+  cases l[i]? <;> simp [accOf_wk]
+
+theorem accL_mid_lt (l1 l2 : List Th) (th : Th) (i : Nat) (h : i < l1.length) : accL (l1 ++ th :: l2) i = accL l1 i := by
+  unfold accL
+  rw [List.getElem?_append_left h]
+
+theorem accL_mid_eq (l1 l2 : List Th) (th : Th) : accL (l1 ++ th :: l2) l1.length = accOf th := by
+  unfold accL
+  simp
+
+theorem accL_mid_gt (l1 l2 : List Th) (th : Th) (k : Nat) : accL (l1 ++ th :: l2) (l1.length + 1 + k) = accL l2 k := by
+  unfold accL
+  rw [List.getElem?_append_right (by omega)]
+  have : l1.length + 1 + k - l1.length = k + 1 := by omega
+  rw [this, List.getElem?_cons_succ]
+
+theorem accL_stable {l1 l2 : List Th} {th th' : Th} {bs bw : Bool}
+    (hacc : ∀ c, accOf th = some c → accOf th' = some c) (i c : Nat)
+    (h : accL (l1 ++ th :: l2) i = some c) : accL (l1.map (wk bs bw) ++ th' :: l2.map (wk bs bw)) i = some c := by
+  rcases Nat.lt_trichotomy i l1.length with hi | hi | hi
+  · rw [accL_mid_lt _ _ _ _ hi] at h
+    rw [accL_mid_lt _ _ _ _ (by simpa using hi), accL_map_wk]; exact h
+  · subst hi
+    rw [accL_mid_eq] at h
+    have := accL_mid_eq (l1.map (wk bs bw)) (l2.map (wk bs bw)) th'
+    rw [List.length_map] at this
+    rw [this]; exact hacc c h
+  · obtain ⟨k, rfl⟩ : ∃ k, i = l1.length + 1 + k := ⟨i - l1.length - 1, by omega⟩
+    rw [accL_mid_gt] at h
+    have := accL_mid_gt (l1.map (wk bs bw)) (l2.map (wk bs bw)) th' k
+    rw [List.length_map] at this
+    rw [this, accL_map_wk]; exact h
+
+theorem accL_stable0 {l1 l2 : List Th} {th th' : Th}
+    (hacc : ∀ c, accOf th = some c → accOf th' = some c) (i c : Nat)
+    (h : accL (l1 ++ th :: l2) i = some c) : accL (l1 ++ th' :: l2) i = some c := by
+  simpa [map_wk_ff] using accL_stable (bs := false) (bw := false) hacc i c h
+
+theorem accL_congr {l1 l2 : List Th} {th th' : Th} (hacc : accOf th' = accOf th) (i : Nat) :
+    accL (l1 ++ th' :: l2) i = accL (l1 ++ th :: l2) i := by
+  rcases Nat.lt_trichotomy i l1.length with hi | hi | hi
+  · rw [accL_mid_lt _ _ _ _ hi, accL_mid_lt _ _ _ _ hi]
+  · subst hi
+    rw [accL_mid_eq, accL_mid_eq, hacc]
+  · obtain ⟨k, rfl⟩ : ∃ k, i = l1.length + 1 + k := ⟨i - l1.length - 1, by omega⟩
+    rw [accL_mid_gt, accL_mid_gt]
+
+theorem tgt_some_iff (ths : List Th) (x : Th) (c : Nat) :
+    tgt ths x = some c ↔ ∃ i, x.role = .acloser i ∧ x.pc ≠ .start ∧ accL ths i = some c := by
+  cases x with | mk r p =>
+  cases r with
+  | acloser i => by_cases hp : p = .start <;> simp [tgt, hp]
+  | _ => simp [tgt]
+
+theorem tgtd_true_iff (ths : List Th) (c : Nat) :
+    tgtd ths c = true ↔ ∃ x ∈ ths, ∃ i, x.role = .acloser i ∧ x.pc ≠ .start ∧ accL ths i = some c := by
+  simp only [tgtd, List.any_eq_true, beq_iff_eq, tgt_some_iff]
+
+/-- what has been accepted stays accepted, what is being closed stays being closed -/
+def Stable (ths ths' : List Th) : Prop :=
+  (∀ i c, accL ths i = some c → accL ths' i = some c) ∧ (∀ c, tgtd ths c = true → tgtd ths' c = true)
+
+theorem stable_refl (ths : List Th) : Stable ths ths := ⟨fun _ _ h => h, fun _ h => h⟩
+
+theorem stable_mk {l1 l2 : List Th} {th th' : Th} {bs bw : Bool} (hrole : th'.role = th.role)
+    (hacc : ∀ c, accOf th = some c → accOf th' = some c) (hns : th.pc ≠ .start → th'.pc ≠ .start) :
+    Stable (l1 ++ th :: l2) (l1.map (wk bs bw) ++ th' :: l2.map (wk bs bw)) := by
+  refine ⟨accL_stable hacc, ?_⟩
+  intro c hc
+  rw [tgtd_true_iff] at hc ⊢
+  obtain ⟨x, hx, i, hr, hp, ha⟩ := hc
+  have ha' := accL_stable (bs := bs) (bw := bw) hacc i c ha
+  simp only [List.mem_append, List.mem_cons] at hx
+  rcases hx with hx | rfl | hx
+  · refine ⟨wk bs bw x, ?_, i, by simpa using hr, by simpa [wkPc_start] using hp, ha'⟩
+    simp only [List.mem_append, List.mem_map]
+    exact Or.inl ⟨x, hx, rfl⟩
+  · exact ⟨th', by simp, i, by rw [hrole]; exact hr, hns hp, ha'⟩
+  · refine ⟨wk bs bw x, ?_, i, by simpa using hr, by simpa [wkPc_start] using hp, ha'⟩
+    simp only [List.mem_append, List.mem_cons, List.mem_map]
+    exact Or.inr (Or.inr ⟨x, hx, rfl⟩)
+
+@[simp] theorem astarted_nil : astarted [] = 0 := rfl
+theorem astarted_append (l1 l2 : List Th) : astarted (l1 ++ l2) = astarted l1 + astarted l2 := by
+  simp [astarted]
+theorem astarted_cons (th : Th) (l : List Th) :
+    astarted (th :: l) = (if (isAcl th.role && th.pc != .start) = true then 1 else 0) + astarted l := by
+  simp only [astarted, List.countP_cons]
+  omega
+@[simp] theorem astarted_map_wk (bs bw : Bool) (l : List Th) : astarted (l.map (wk bs bw)) = astarted l := by
+  induction l with
+  | nil => rfl
+  | cons x l ih =>
+    rw [List.map_cons, astarted_cons, astarted_cons, ih]
+    congr 2
+    cases x with | mk r p => cases p <;> cases bs <;> cases bw <;> simp [wk, wkPc]
+
+/-! ### counting the connections being closed -/
+
+theorem length_filterMap_eq_countP {α β : Type} (f : α → Option β) (p : α → Bool) (l : List α)
+    (h : ∀ x ∈ l, (f x).isSome = p x) : (l.filterMap f).length = l.countP p := by
+  induction l with
+  | nil => rfl
+  | cons x l ih =>
+    have hx := h x (by simp)
+    have ih := ih (fun y hy => h y (by simp [hy]))
+    rw [List.filterMap_cons, List.countP_cons]
+    cases hf : f x with
+    | none => simp [hf] at hx; simp [← hx, ih]
+    | some b => simp [hf] at hx; simp [← hx, ih]
+
+theorem contains_filterMap {α : Type} (f : α → Option Nat) (l : List α) (c : Nat) :
+    (l.filterMap f).contains c = l.any (fun x => f x == some c) := by
+  induction l with
+  | nil => rfl
+  | cons x l ih =>
+    rw [List.filterMap_cons, List.any_cons, ← ih]
+    cases hf : f x with
+    | none => simp
+    | some b =>
+      by_cases hb : b = c
+      · simp [hb]
+      · have hb' : ¬ c = b := fun e => hb e.symm
+        simp [hb, hb']
+
+theorem nodup_filter_not_contains (T : List Nat) : ∀ (M : List Nat), T.Nodup → M.Nodup → (∀ x ∈ M, x ∈ T) →
+    (T.filter (fun c => !M.contains c)).length + M.length = T.length := by
+  intro M
+  induction M with
+  | nil => intro _ _ _; simp
+  | cons m M ih =>
+    intro hT hM hsub
+    rw [List.nodup_cons] at hM
+    have ih := ih hT hM.2 (fun x hx => hsub x (by simp [hx]))
+    have hF : (T.filter (fun c => !M.contains c)).Nodup := List.Nodup.sublist List.filter_sublist hT
+    have hm : m ∈ T.filter (fun c => !M.contains c) := by
+      rw [List.mem_filter]
+      exact ⟨hsub m (by simp), by simpa using hM.1⟩
+    have e : T.filter (fun c => !(m :: M).contains c) = (T.filter (fun c => !M.contains c)).filter (fun x => x != m) := by
+      rw [List.filter_filter]
+      congr 1
+      funext c
+      by_cases hc : c = m <;> simp [hc]
+    rw [e, ← List.Nodup.erase_eq_filter hF, List.length_erase_of_mem hm, List.length_cons]
+    have := List.length_pos_of_mem hm
+    omega
+
+theorem filterMap_nodup_inj {α : Type} (f : α → Option Nat) : ∀ (l : List α), (l.filterMap f).Nodup →
+    ∀ (i j : Nat) (x y : α) (c : Nat), l[i]? = some x → l[j]? = some y → f x = some c → f y = some c → i = j := by
+  intro l
+  induction l with
+  | nil => intro _ i j x y c h; simp at h
+  | cons z l ih =>
+    intro hnd i j x y c hi hj hx hy
+    have hmem : ∀ (k : Nat) (w : α), l[k]? = some w → f w = some c → c ∈ l.filterMap f := by
+      intro k w hk hw
+      rw [List.mem_filterMap]
+      exact ⟨w, List.mem_of_getElem? hk, hw⟩
+    have hnd' : (l.filterMap f).Nodup := by
+      rw [List.filterMap_cons] at hnd
+      cases hz : f z with
+      | none => simpa [hz] using hnd
+      | some b => rw [hz] at hnd; exact (List.nodup_cons.1 hnd).2
+    cases i with
+    | zero =>
+      cases j with
+      | zero => rfl
+      | succ j =>
+        simp at hi hj
+        subst hi
+        rw [List.filterMap_cons, hx, List.nodup_cons] at hnd
+        exact absurd (hmem j y hj hy) hnd.1
+    | succ i =>
+      cases j with
+      | zero =>
+        simp at hi hj
+        subst hj
+        rw [List.filterMap_cons, hy, List.nodup_cons] at hnd
+        exact absurd (hmem i x hi hx) hnd.1
+      | succ j =>
+        simp at hi hj
+        rw [ih hnd' i j x y c hi hj hx hy]
+
+theorem accL_mem_taken {ths : List Th} {i c : Nat} (h : accL ths i = some c) : c ∈ taken ths := by
+  obtain ⟨x, hx, hc⟩ := (accL_some_iff _ _ _).1 h
+  exact (mem_taken _ _).2 ⟨x, List.mem_of_getElem? hx, ((accOf_some _ _).1 hc).2⟩
+
+/-- the connections returned to different acceptors are different -/
+theorem accL_inj {ths : List Th} (tnd : (taken ths).Nodup) {i j c : Nat} (hi : accL ths i = some c) (hj : accL ths j = some c) :
+    i = j := by
+  obtain ⟨x, hx, hxc⟩ := (accL_some_iff _ _ _).1 hi
+  obtain ⟨y, hy, hyc⟩ := (accL_some_iff _ _ _).1 hj
+  refine filterMap_nodup_inj takenOf ths tnd i j x y c hx hy ?_ ?_
+  · simp [takenOf, ((accOf_some _ _).1 hxc).2]
+  · simp [takenOf, ((accOf_some _ _).1 hyc).2]
+
+theorem pairwise_acl (l : List Th) (h : ∀ i, ((l.map (·.role)).filter (· = .acloser i)).length ≤ 1) :
+    l.Pairwise (fun x y => ∀ i, x.role = .acloser i → y.role ≠ .acloser i) := by
+  induction l with
+  | nil => exact List.Pairwise.nil
+  | cons x l ih =>
+    rw [List.pairwise_cons]
+    constructor
+    · intro y hy i hx hyr
+      have := h i
+      simp only [List.map_cons, List.filter_cons, hx, decide_true, if_true, List.length_cons] at this
+      have hm : Role.acloser i ∈ (l.map (·.role)).filter (· = .acloser i) :=
+        List.mem_filter.2 ⟨List.mem_map.2 ⟨y, hy, hyr⟩, by simp⟩
+      have := List.length_pos_of_mem hm
+      omega
+    · apply ih
+      intro i
+      have := h i
+      simp only [List.map_cons, List.filter_cons] at this
+      split at this
+      · simp only [List.length_cons] at this; omega
+      · exact this
+
+/-- the started `acloser`s close pairwise different connections, all of them handed out -/
+theorem count_taken {ths : List Th} (hw : ∀ i, ((ths.map (·.role)).filter (· = .acloser i)).length ≤ 1)
+    (tnd : (taken ths).Nodup)
+    (n2 : ∀ th ∈ ths, ∀ i, th.role = .acloser i → th.pc ≠ .start → ∃ c, accL ths i = some c) :
+    ((taken ths).filter (fun c => !tgtd ths c)).length + astarted ths = (taken ths).length := by
+  have hlen : (ths.filterMap (tgt ths)).length = astarted ths := by
+    apply length_filterMap_eq_countP
+    intro x hx
+    cases x with | mk r p =>
+    cases r with
+    | acloser i =>
+      by_cases hp : p = .start
+      · simp [tgt, hp, isAcl]
+      · obtain ⟨c, hc⟩ := n2 ⟨.acloser i, p⟩ hx i rfl hp
+        simp [tgt, hp, isAcl, hc]
+    | _ => simp [tgt, isAcl]
+  have hcont : ∀ c, (ths.filterMap (tgt ths)).contains c = tgtd ths c := fun c => contains_filterMap _ _ _
+  have hnd : (ths.filterMap (tgt ths)).Nodup := by
+    refine List.Pairwise.filterMap (tgt ths) ?_ (pairwise_acl ths hw)
+    intro x y hxy b hb b' hb' e
+    subst e
+    obtain ⟨i, hxi, _, hai⟩ := (tgt_some_iff _ _ _).1 hb
+    obtain ⟨j, hyj, _, haj⟩ := (tgt_some_iff _ _ _).1 hb'
+    have := accL_inj tnd hai haj
+    subst this
+    exact hxy i hxi hyj
+  have hsub : ∀ c ∈ ths.filterMap (tgt ths), c ∈ taken ths := by
+    intro c hc
+    rw [List.mem_filterMap] at hc
+    obtain ⟨x, _, hx⟩ := hc
+    obtain ⟨i, _, _, hai⟩ := (tgt_some_iff _ _ _).1 hx
+    exact accL_mem_taken hai
+  have := nodup_filter_not_contains (taken ths) _ tnd hnd hsub
+  simp only [hcont] at this
+  omega
 
 end TV.Proofs.ListenerLife
